@@ -132,13 +132,13 @@ class CombineT(ToolCase):
 
     def draw(self, ctx, src, mono_only=False):
         m1 = world.gen_mesh(src, tag="w", force_3d=True)
-        m1.fields = world.gen_fields(src, tag="w", nmax=4)
+        m1.fields = world.gen_fields(src, tag="w", nmax=6)
         world.gen_layout(src, m1, tag="w", force_style=0 if mono_only else None)
         world.fill_random(m1, src.draw("w.dataseed", 0, 999999))
         world.gen_cosmetics(src, m1, "w")
         m2 = m1.copy_meta()
         rel = src.draw("w2.layout_rel", 0, 0 if mono_only else 3)
-        m2.fields = world.gen_fields(src, tag="w2", nmax=4)
+        m2.fields = world.gen_fields(src, tag="w2", nmax=6)
         if rel == 0:
             m2.layout = [list(l) for l in m1.layout]            # same files, same order
         elif rel == 1:
@@ -163,13 +163,19 @@ class CombineT(ToolCase):
         self.v2 = None
         if src.flag("sel1"):
             idx = src.subset("sel1.set", len(m1.fields), min_size=1)
-            self.v1 = [m1.fields[i] for i in idx]
+            order = src.perm("sel1.order", len(idx)) if 1 < len(idx) <= 8 else list(range(len(idx)))
+            self.v1 = [m1.fields[idx[i]] for i in order]
         if src.flag("sel2"):
             idx = src.subset("sel2.set", len(m2.fields), min_size=1)
-            self.v2 = [m2.fields[i] for i in idx]
+            order = src.perm("sel2.order", len(idx)) if 1 < len(idx) <= 8 else list(range(len(idx)))
+            self.v2 = [m2.fields[idx[i]] for i in order]
         self.draw_forms(src)
+        # the readers can be opened with a level limit (API only): combine then merges levels 0..limit
+        self.limit = None
+        if not self.opts["cli"] and m1.nlev > 1 and src.flag("cooker_limit", 4):
+            self.limit = src.draw("cooker_limit.v", 0, m1.nlev - 1)
         self.opts.update(vars1=self.v1, vars2=self.v2, layout_rel=self.layout_rel,
-                         mono1=m1.is_monotone(), mono2=m2.is_monotone())
+                         mono1=m1.is_monotone(), mono2=m2.is_monotone(), limit=self.limit)
 
     def fields_expected(self):
         f1 = list(self.m1.fields) if self.v1 is None else list(self.v1)
@@ -204,13 +210,18 @@ class CombineT(ToolCase):
         from amr_kitchen import PlotfileCooker
         from amr_kitchen.combine import combine
 
+        lk = {} if getattr(self, "limit", None) is None else {"limit_level": self.limit}
+
         def go():
-            combine(PlotfileCooker(i1), PlotfileCooker(i2), pltout=out_arg, vars1=v1,
+            combine(PlotfileCooker(i1, **lk), PlotfileCooker(i2, **lk), pltout=out_arg, vars1=v1,
                     vars2=None if self.v2 is None else list(self.v2))
         return run_tool(ctx, go, cwd=cwd, label=f"combine({i1},{i2},out={out_arg},v1={v1},v2={self.v2})")
 
     def expected(self):
         f1, f2 = self.fields_expected()
+        lim = getattr(self, "limit", None)
+        if lim is not None and self.m2.nlev > lim:
+            return self.m1.restrict(self.m1.fields, lim).combine(self.m2.restrict(self.m2.fields, lim), f1, f2)
         return self.m1.combine(self.m2, f1, f2)
 
 
